@@ -2,7 +2,7 @@
    encoders and the projections applied to both sides before comparison. *)
 From Coq Require Import String.
 From Coq Require Import List NArith ZArith Bool.
-From Verif Require Import GoStr GoNum GoHeader Sx Tables Route Forward Serve.
+From Verif Require Import GoStr GoNum GoHeader Sx Sha1 Tables Route Forward Serve Meta Fresh Key Cache.
 Import ListNotations.
 Open Scope N_scope.
 
@@ -87,8 +87,8 @@ Definition drop_keys (h : hdrs) (ks : list str) : hdrs :=
 
 Definition enc_client (c : client) : sx :=
   match cl_kind c with
-  | KOrigin => L [enc_kind KOrigin; I (cl_status c); enc_hdrs (drop_keys (cl_hdrs c) client_ignored); A (cl_body c)]
-  | k => L [enc_kind k; I (cl_status c); L []; A []]
+  | KOrigin => L [enc_kind KOrigin; I (cl_status c); enc_hdrs (drop_keys (cl_hdrs c) client_ignored); A (cl_body c); of_bool (cl_aborted c)]
+  | k => L [enc_kind k; I (cl_status c); L []; A []; of_bool false]
   end.
 
 Definition enc_dlv (d : dlv) : sx :=
@@ -100,7 +100,7 @@ Definition enc_serve (o : serve_out) : sx :=
 (* a HEAD response carries no body on the wire (Go's server drops it) *)
 Definition s_HEAD : str := bytes "HEAD"%string.
 Definition blank_head_body (m : str) (c : client) : client :=
-  if str_eqb m s_HEAD then mkClient (cl_kind c) (cl_status c) (cl_hdrs c) [] else c.
+  if str_eqb m s_HEAD then mkClient (cl_kind c) (cl_status c) (cl_hdrs c) [] (cl_aborted c) else c.
 
 (* ---- the "route" family ---- *)
 (* case = L [A "route"; cfg; L rules; req; script] *)
@@ -120,8 +120,8 @@ Definition dec_enc_hdrs (x : sx) : hdrs :=
 Definition proj_client (x : sx) : sx :=
   let kind := sx_str (sx_nth 0 x) in
   if str_eqb kind (bytes "origin"%string) then
-    L [A kind; sx_nth 1 x; enc_hdrs (drop_keys (dec_enc_hdrs (sx_nth 2 x)) client_ignored); sx_nth 3 x]
-  else L [A kind; sx_nth 1 x; L []; A []].
+    L [A kind; sx_nth 1 x; enc_hdrs (drop_keys (dec_enc_hdrs (sx_nth 2 x)) client_ignored); sx_nth 3 x; of_bool (sx_bool (sx_nth 4 x))]
+  else L [A kind; sx_nth 1 x; L []; A []; of_bool false].
 
 Definition proj_dlv (x : sx) : sx :=
   L [sx_nth 0 x; sx_nth 1 x; sx_nth 2 x; enc_hdrs (drop_keys (dec_enc_hdrs (sx_nth 3 x)) dlv_ignored); sx_nth 4 x].
@@ -142,3 +142,42 @@ Definition run_copy (x : sx) : sx :=
      :: map (fun v => run_route_with c rs q (v ++ sc)) variants).
 
 Definition proj_copy (x : sx) : sx := L (map proj_route (sx_list x)).
+
+(* ---- the "cache" family: a history of requests, clock advances and origin changes against
+   one server with an on-disk cache ---- *)
+(* case = L [A "cache"; cfg; L rules; L caches; optsuffix; I base; L ops; L expires] *)
+Definition dec_mcfg (x : sx) : mcfg :=
+  mkMcfg (dec_cfg (sx_nth 1 x)) (map (dec_rule 4) (sx_list (sx_nth 2 x))) (to_strs (sx_nth 3 x))
+         (sx_opt_str (sx_nth 4 x))
+         (map (fun e => (sx_str (sx_nth 0 e), sx_int (sx_nth 1 e))) (sx_list (sx_nth 7 x)))
+         sha1_hex.
+
+Definition enc_disk (d : disk) : sx :=
+  L (map (fun p => L [A (fst p); A (ce_meta (snd p)); A (ce_body (snd p))])
+         (sort_hdrs (map (fun p => (fst p, snd p)) d))).
+
+Definition replace_script (sc : script) (upd : script) : script :=
+  upd ++ filter (fun p => negb (existsb (fun u => str_eqb (fst u) (fst p)) upd)) sc.
+
+Fixpoint run_ops (c : mcfg) (st : mstate) (ops : list sx) : list sx :=
+  match ops with
+  | [] => []
+  | op :: rest =>
+    let kind := sx_str (sx_nth 0 op) in
+    if str_eqb kind (bytes "req"%string) then
+      let q := dec_req (sx_nth 1 op) in
+      let o := caching_func 12 c st q None [] None false [] in
+      L [enc_client (blank_head_body (q_method q) (cf_client o)); L (map enc_dlv (cf_log o)); enc_disk (ms_disk (cf_state o))]
+        :: run_ops c (cf_state o) rest
+    else if str_eqb kind (bytes "adv"%string) then
+      run_ops c (mkState (ms_disk st) (ms_script st) (ms_now st + sx_int (sx_nth 1 op))%Z) rest
+    else if str_eqb kind (bytes "script"%string) then
+      run_ops c (mkState (ms_disk st) (replace_script (ms_script st) (dec_script (sx_nth 1 op))) (ms_now st)) rest
+    else run_ops c st rest
+  end.
+
+Definition run_cache (x : sx) : sx :=
+  L (run_ops (dec_mcfg x) (mkState [] [] (sx_int (sx_nth 5 x))) (sx_list (sx_nth 6 x))).
+
+Definition proj_cache (x : sx) : sx :=
+  L (map (fun o => L [proj_client (sx_nth 0 o); L (map proj_dlv (sx_list (sx_nth 1 o))); sx_nth 2 o]) (sx_list x)).
